@@ -16,8 +16,43 @@ def pairs : List Nat → List (Nat × Nat)
   | s :: n :: rest => (s, n) :: pairs rest
   | _ => []
 
+/-- forwarding addresses (relative to the region start) of the object starts of ONE region whose
+offset vector was calculated up to `cursorBlocks`; the model's offset vector is per region (a
+calculation only produces entries of blocks below its cursor, `calcBlocks_getD`). -/
+def fwdOf (cursorBlocks : Nat) (objsW : List (Nat × Nat)) : List String :=
+  let words := regionBytes / 8
+  let R := regionStart
+  let bits : Array Bool := objsW.foldl (fun (a : Array Bool) o => (a.set! o.1 true).set! (o.1 + o.2 - 1) true)
+    (Array.replicate words false)
+  let bit : Nat → Bool := fun a => if a < R then false else bits.getD ((a - R) / 8) false
+  let ov := calculateOffsetVector bit R (R + cursorBlocks * 512)
+  let rel := fun (a : Nat) => if a < R then "stale" else toString (a - R)
+  objsW.map (fun o => rel (forward ov bit R (R + 8 * o.1)))
+
+/-- `xducer run2 <nA> <sA nA>… <cbB> <nB> <sB nB>…`: full region A, adjacent region B. -/
+def run2 (rest : List String) : String :=
+  match nums? rest with
+  | none => "bad-op"
+  | some n =>
+    match n with
+    | [] => "bad-op"
+    | na :: t =>
+      if t.length < 2 * na + 2 then "bad-op" else
+      let a := pairs (t.take (2 * na))
+      let t2 := t.drop (2 * na)
+      let cb := t2[0]!
+      let nb := t2[1]!
+      let t3 := t2.drop 2
+      if t3.length != 2 * nb || cb * 512 > regionBytes then "bad-op" else
+      let b := pairs t3
+      let words := regionBytes / 8
+      if (a ++ b).any (fun o => o.2 == 0 || o.1 + o.2 > words) then "bad-op" else
+      let strs := fun (l : List String) => if l.isEmpty then "-" else joinWith "," l
+      s!"fwdA={strs (fwdOf 2048 a)} fwdB={strs (fwdOf cb b)}"
+
 def run (args : List String) : String :=
   match args with
+  | "run2" :: rest => run2 rest
   | "run" :: rest =>
     if rest.length < 2 then "bad-op" else
     match nums? rest with
